@@ -67,6 +67,15 @@ func (vc *FuncVC) genOnce() {
 			vc.assume(inv)
 		}
 		args = append(args, t)
+		// elements of a slice parameter are well-typed values too
+		if st, ok := p.Type().Underlying().(*types.Slice); ok {
+			k := vc.elemKey(st.Elem())
+			el := S("select", S("select", f.get(entry, k), S("s-arr", t)), "j!t")
+			invs := vc.eng.typeInv(el, st.Elem(), "", 0)
+			if len(invs) > 0 {
+				vc.assume(fmt.Sprintf("(forall ((j!t Int)) (! %s :pattern (%s)))", And(invs...), el))
+			}
+		}
 	}
 	for _, fv := range fn.FreeVars {
 		t := vc.fresh("fv_"+fv.Name(), vc.eng.sortOf(fv.Type()))
